@@ -26,6 +26,7 @@ import (
 	sdk "github.com/cosmos/cosmos-sdk/types"
 
 	markertypes "github.com/provenance-io/provenance/x/marker/types"
+	nametypes "github.com/provenance-io/provenance/x/name/types"
 )
 
 // c18MarkerAccounts names the pseudo-module of the raw store comparison that holds the stored
@@ -48,6 +49,8 @@ type c18LC struct {
 	added     bool
 	dead      bool // destroyed, or the add was rejected
 	fails     int
+	refs      int   // references other modules were asked to make to this marker (c18_refs_test.go)
+	addedAt   int64 // height of the block that created it
 	init      string
 	ops       []string
 	trace     []map[string]any
@@ -74,6 +77,7 @@ var c18LCTargets = []struct {
 	{"deleted-from-proposed", []string{"cancel", "delete"}, false},
 	{"destroyed-at-export-from-active", []string{"finalize", "activate", "cancel", "delete"}, true},
 	{"deleted-from-finalized", []string{"finalize", "cancel", "delete"}, false},
+	{"deleted-from-active", []string{"finalize", "activate", "cancel", "delete"}, false},
 }
 
 func (g *c18Gen) lcAccess(lc *c18LC) []markertypes.AccessGrant {
@@ -114,6 +118,10 @@ func (g *c18Gen) lcPlan() *c18Tx {
 	var ready []*c18LC
 	for _, lc := range g.lcs {
 		if lc.added && !lc.dead && len(lc.route) > 0 && !g.lcBusy[lc.denom] && !(lc.lastBlock && len(lc.route) == 1) && lc.fails < 3 {
+			// a marker that will be deleted waits (a while) until other modules refer to it
+			if lc.deletable() && lc.route[0] == "cancel" && lc.refs < len(c18RefKinds) && g.n.height-lc.addedAt < 30 {
+				continue
+			}
 			ready = append(ready, lc)
 		}
 	}
@@ -132,10 +140,22 @@ func (g *c18Gen) lcPlan() *c18Tx {
 			lc.route = lc.route[1:]
 		}
 		mt := markertypes.MarkerType_Coin
+		var reqAttrs []string
 		if r.Intn(3) == 0 {
 			mt = markertypes.MarkerType_RestrictedCoin
+			// required attribute: a name of the history (names are deleted by name-delete later on)
+			var mine []string
+			_ = g.n.app.NameKeeper.IterateRecords(g.n.queryCtx(), nametypes.NameKeyPrefix, func(rec nametypes.NameRecord) error {
+				if strings.HasPrefix(rec.Name, "n") && strings.HasSuffix(rec.Name, "."+c18Root) {
+					mine = append(mine, rec.Name)
+				}
+				return nil
+			})
+			if len(mine) > 0 {
+				reqAttrs = []string{mine[r.Intn(len(mine))]}
+			}
 		}
-		msg := markertypes.NewMsgAddMarkerRequest(lc.denom, sdkmath.NewInt(int64(100+r.Intn(900))), g.addr(lc.manager), g.addr(lc.manager), mt, r.Intn(2) == 0, r.Intn(2) == 0, false, nil, uint64(r.Intn(3))*500, 100)
+		msg := markertypes.NewMsgAddMarkerRequest(lc.denom, sdkmath.NewInt(int64(100+r.Intn(900))), g.addr(lc.manager), g.addr(lc.manager), mt, r.Intn(2) == 0, r.Intn(2) == 0, false, reqAttrs, uint64(r.Intn(3))*500, 100)
 		msg.Status = status
 		msg.AccessList = g.lcAccess(lc)
 		g.lcs = append(g.lcs, lc)
@@ -227,6 +247,7 @@ func (g *c18Gen) lcObserve(ops []*c18LCOp, oks []bool) {
 		if op.kind == "add" {
 			if ok && found {
 				lc.added = true
+				lc.addedAt = g.n.height
 				lc.init = c18LMarkerTerm(m)
 				lc.trace = append(lc.trace, map[string]any{"op": "add", "status": m.GetStatus().String(), "manager_is": g.acctIndex(m.GetManager().String()), "target": lc.target, "access_shape": lc.shape})
 				g.w.Count("lifecycle_added")
